@@ -564,12 +564,12 @@ func runC07(c *Ctx) {
 					key += " [" + rootName(args[w.argIdx]) + "]"
 				}
 				skippable := canSkip(ci, exempt)
-				dropped := !errResultUsed(ci.(*ssa.Call), 1)
+				dropped := !errResultUsed(ci.(*ssa.Call), resultCount(ci.(*ssa.Call)))
 				for _, link := range pl.chain {
 					if canSkip(link, exempt) {
 						skippable = true
 					}
-					if !errResultUsed(link.(*ssa.Call), 1) {
+					if !errResultUsed(link.(*ssa.Call), resultCount(link.(*ssa.Call))) {
 						dropped = true
 					}
 				}
@@ -814,6 +814,14 @@ func derivesFrom(v ssa.Value, src ssa.Value, depth int) bool {
 }
 
 // errResultUsed: the error result of the call is compared with nil, returned, or passed on.
+// resultCount: how many results the call has (the error is the last one).
+func resultCount(call *ssa.Call) int {
+	if t, ok := call.Type().(*types.Tuple); ok {
+		return t.Len()
+	}
+	return 1
+}
+
 func errResultUsed(call *ssa.Call, nres int) bool {
 	var vals []ssa.Value
 	if nres == 1 {
